@@ -4,11 +4,11 @@
 package main
 
 import (
-	"runtime/debug"
-	"runtime/pprof"
 	"encoding/json"
 	"fmt"
 	"os"
+	"runtime/debug"
+	"runtime/pprof"
 
 	"verif/internal/harness"
 	_ "verif/internal/props"
